@@ -237,7 +237,7 @@ def build(ctx):
             spec["type"] = ty
         add("arrays + keywords + metadata", spec)
     if not ctx.quick:
-        for i, j, k in itertools.product(scalars[::3], repeat=3):
+        for i, j, k in itertools.product(scalars[::2], repeat=3):
             add("3 operations", {"ops": [{"op": "G", "args": [i], "modes": [0]}, {"op": "H", "kwargs": [("k", j)], "modes": [1]}, {"op": "K", "args": [k, i], "modes": [0, 1]}]})
     return specs, fam
 
